@@ -33,7 +33,8 @@ PROBES = ['replacement-happened', 'queued', 'refused-do-not-queue', 'already-own
           'release-promotes-waiter', 'waiting-peer-releases', 'owner-disconnects-with-waiter',
           'waiting-peer-disconnects', 'release-not-owner', 'release-nonexistent',
           'requests-concurrently-in-flight', 'real-client-request', 'queue-of-three',
-          'replaced-owner-fate-observed', 'reset-disconnect', 'ten-or-more-peers']
+          'replaced-owner-fate-observed', 'reset-disconnect', 'ten-or-more-peers',
+          'request-without-reply', 'name-of-255-characters']
 COMPONENTS = {
     'real': ['txdbus.bus.Bus (dbus_RequestName, dbus_ReleaseName, dbus_GetNameOwner, '
              'dbus_ListQueuedOwners, clientConnected/Disconnected)', 'txdbus.bus.BusProtocol',
@@ -46,6 +47,7 @@ ASSUMPTIONS = ['what becomes of a replaced owner (dropped or queued behind the n
                'statement: the model keeps both alternatives and prunes by observation',
                'NameLost / NameOwnerChanged are recorded, not required']
 NAMES = ['org.sim.alpha', 'org.sim.beta']
+LONG_NAME = 'org.sim.' + 'n' * 247          # exactly 255 characters: the longest legal name
 E_NO_OWNER = 'org.freedesktop.DBus.Error.NameHasNoOwner'
 
 
@@ -134,6 +136,9 @@ def scenario(ctx):
     observer = connect('ref')
     observer['observer'] = True
     names = NAMES[:1] if script is not None else NAMES[:1 + ds.choose(2)]
+    if script is None and ds.flag(0.1):
+        names = names[:1] + [LONG_NAME]
+        sim.probe('name-of-255-characters')
     ctx.config.update(peers=[p['kind'] for p in peers], names=names)
 
     states = {freeze({})}
@@ -164,8 +169,9 @@ def scenario(ctx):
         n = ds.pick(names)
         A, R, D = bool(ds.choose(2)), bool(ds.choose(2)), bool(ds.choose(2))
         flags = (1 if A else 0) | (2 if R else 0) | (4 if D else 0)
+        noreply = p['kind'] == 'ref' and ds.flag(0.1)
         if p['kind'] == 'ref':
-            m = p['proto'].bus_call('RequestName', 'su', [n, flags])
+            m = p['proto'].bus_call('RequestName', 'su', [n, flags], flags=1 if noreply else 0)
         else:
             sim.probe('real-client-request')
             eu = bool(ds.choose(2))
@@ -178,9 +184,9 @@ def scenario(ctx):
             if m.body != [n, flags]:
                 raise Violation('C13/client-flags', 'flags', 'requestBusName(allow=%s, replace=%s, '
                                 'doNotQueue=%s) sent %r' % (A, R, D, m.body))
-        p['pending'][m.serial] = ('request', n, A, R, D)
+        p['pending'][m.serial] = ('request', n, A, R, D) if not noreply else ('request-noreply', n, A, R, D)
         note_sent(p)
-        sim.log('op', 'request', p['idx'], n, flags)
+        sim.log('op', 'request', p['idx'], n[:20], flags, noreply)
 
     def op_release(p):
         n = ds.pick(names)
@@ -279,6 +285,17 @@ def scenario(ctx):
             raise Violation('C13/harness', 'not processed', 'request %r not in the journal' % (desc,))
         new_by_peer = {q['idx']: seg.get(q['name'], []) for q in peers}
         mine = [m for m in new_by_peer[c] if m.fields.get(rc.F_REPLY_SERIAL) == serial]
+        if desc[0] == 'request-noreply':
+            # flagged NO_REPLY_EXPECTED: the request takes effect all the same; without a reply
+            # code every outcome the statement allows is kept and later lookups prune
+            sim.probe('request-without-reply')
+            _, n, A, R, D = desc
+            succ = set()
+            for s in states:
+                for s2, rcode, acq in m_request(s, c, n, A, R, D):
+                    succ.add(s2)
+            states = succ
+            return
         if len(mine) != 1:
             raise Violation('C13/reply-count', desc[0], 'request %r of peer %d got %d replies'
                             % (desc, c, len(mine)))
